@@ -68,12 +68,17 @@ func replaceMatchers(selectors matcherHeap, expr *parser.Expr) {
 			filters = dropMatcher(labels.MetricName, filters)
 
 			// Drop filters which are already present as matchers in the replacement selector.
+			// Only that very matcher is dropped: the selector can have further matchers
+			// on the same label name.
 			for _, s := range replacement {
+				kept := filters[:0]
 				for _, f := range filters {
 					if s.Name == f.Name && s.Value == f.Value && s.Type == f.Type {
-						filters = dropMatcher(f.Name, filters)
+						continue
 					}
+					kept = append(kept, f)
 				}
+				filters = kept
 			}
 			e.LabelMatchers = replacement
 			*node = &FilteredSelector{
@@ -133,22 +138,30 @@ func (m matcherHeap) findReplacement(metricName string, matcher []*labels.Matche
 		return nil, false
 	}
 
-	matcherSet := matcherToMap(matcher)
-	topSet := matcherToMap(top)
-	for k, v := range topSet {
-		m, ok := matcherSet[k]
-		if !ok {
-			return nil, false
+	// Every matcher of the top selector has to be one of the input's matchers. Matchers
+	// are compared one by one, a label name can occur in several of them.
+	contains := func(matchers []*labels.Matcher, v *labels.Matcher) bool {
+		for _, m := range matchers {
+			if v.Name == m.Name && v.Type == m.Type && v.Value == m.Value {
+				return true
+			}
 		}
-
-		equals := v.Name == m.Name && v.Type == m.Type && v.Value == m.Value
-		if !equals {
+		return false
+	}
+	for _, v := range top {
+		if !contains(matcher, v) {
 			return nil, false
 		}
 	}
 
 	// The top matcher and input matcher are equal. No replacement needed.
-	if len(topSet) == len(matcherSet) {
+	allInTop := true
+	for _, m := range matcher {
+		if !contains(top, m) {
+			allInTop = false
+		}
+	}
+	if allInTop {
 		return nil, false
 	}
 
